@@ -20,7 +20,23 @@ func (g *pathGen) predExpr(d int) jast.Node {
 		}
 		return &jast.Num{V: v}
 	}
-	switch r.Intn(16) {
+	switch r.Intn(19) {
+	case 16, 17:
+		// positions computed by built-ins that return Go integers
+		g.tags["pred:integer-valued-function"] = true
+		cnt := &jast.Call{Fn: &jast.Var{Name: "count"}, Args: []jast.Node{&jast.Path{Steps: []jast.Node{&jast.Var{Name: "$"}, &jast.Name{V: "idx"}}}}}
+		switch r.Intn(4) {
+		case 0:
+			return &jast.Call{Fn: &jast.Var{Name: "length"}, Args: []jast.Node{&jast.Str{V: r.Pick("", "a", "ab", "abc")}}}
+		case 1:
+			return &jast.Array{Items: []jast.Node{cnt, &jast.Num{V: 0}}}
+		case 2:
+			return &jast.Bin{Op: "-", L: cnt, R: &jast.Num{V: float64(r.Range(0, 3))}}
+		}
+		return cnt
+	case 18:
+		g.tags["pred:integer-valued-function"] = true
+		return &jast.Call{Fn: &jast.Var{Name: "length"}, Args: []jast.Node{&jast.Path{Steps: []jast.Node{&jast.Var{Name: "$"}, &jast.Name{V: "word"}}}}}
 	case 0, 1:
 		g.tags["pred:number"] = true
 		return num()
@@ -121,7 +137,7 @@ func c02Items(l int) A {
 	return a
 }
 
-// predicate forms: literal n, $$.n, [n], [n,n], [n,m] for 6 m  => 10 forms
+// predicate forms: literal n, $$.n, [n], [n,n], [n,m] for 6 m, $count(...) = n  => 11 forms
 func c02PredForm(form int, n float64) jast.Node {
 	switch form {
 	case 0:
@@ -132,6 +148,16 @@ func c02PredForm(form int, n float64) jast.Node {
 		return &jast.Array{Items: []jast.Node{&jast.Num{V: n}}}
 	case 3:
 		return &jast.Array{Items: []jast.Node{&jast.Num{V: n}, &jast.Num{V: n}}}
+	case 10:
+		// the position as a Go integer: $count of an input array of |n| members
+		if n != float64(int(n)) {
+			return &jast.Num{V: n}
+		}
+		cnt := &jast.Call{Fn: &jast.Var{Name: "count"}, Args: []jast.Node{&jast.Path{Steps: []jast.Node{&jast.Var{Name: "$"}, &jast.Name{V: "cnt"}}}}}
+		if n < 0 {
+			return &jast.Bin{Op: "*", L: cnt, R: &jast.Num{V: -1}}
+		}
+		return cnt
 	}
 	return &jast.Array{Items: []jast.Node{&jast.Num{V: n}, &jast.Num{V: c02M[form-4]}}}
 }
@@ -153,7 +179,7 @@ func c02Head(shape int, filters []jast.Node) jast.Node {
 }
 
 const (
-	c02Forms  = 10
+	c02Forms  = 11
 	c02Shapes = 5
 	c02Lens   = 6
 )
@@ -186,6 +212,13 @@ func c02Case(i int64) (jast.Node, O, string) {
 	}
 	items := c02Items(l)
 	doc := O{"x": items, "n": pos, "y": A{O{"x": items}, O{"x": c02Items((l + 2) % c02Lens)}}}
+	if pos == float64(int(pos)) {
+		cnt := A{}
+		for k := 0; k < int(pos) || k < -int(pos); k++ {
+			cnt = append(cnt, true)
+		}
+		doc["cnt"] = cnt
+	}
 	if second >= 0 {
 		// make the survivors of the first predicate interesting: items that are arrays
 		nested := A{}
@@ -288,7 +321,7 @@ func c02Case4(i int64) (jast.Node, interface{}, string) {
 func init() {
 	fw.Register(&fw.Prop{
 		ID: "C02", Title: "Predicates filter by truth value or select by position, per context item",
-		Rule: "cases: (a) exhaustive grid: array lengths 0..5 x positions -7..7 step 0.5 (29) x 10 predicate forms (literal n, $$.n, [n], [n,n], [n,m] for 6 m) x 5 head shapes (x[p], (x)[p], $v[p], $.x[p], y.x[p] with x nested in a 2-element y); " +
+		Rule: "cases: (a) exhaustive grid: array lengths 0..5 x positions -7..7 step 0.5 (29) x 11 predicate forms (literal n, $$.n, [n], [n,n], [n,m] for 6 m, and n as the Go integer returned by $count) x 5 head shapes (x[p], (x)[p], $v[p], $.x[p], y.x[p] with x nested in a 2-element y); " +
 			"(b) the same grid with a second stacked predicate [0], [-1], [true] on a name head and on a variable head over arrays of arrays (the two stacking rules); " +
 			"(b2) per-item predicate values: arrays of 1..4 objects whose member pos is each of -1,0,1,2,1.5,true,false,[0,2],absent,'s' (all 11110 combinations) under x[pos], (x)[pos], $v[pos], and the raw values under x[$]; " +
 			"(b3) a variable head ($, $$, $v) with two stacked positional predicates, alone or followed by .$ or .x, evaluated on inputs that are themselves arrays (324 cases): the head is evaluated once, not per member; " +
@@ -330,6 +363,7 @@ func init() {
 						m["idx"] = []interface{}{A{0.0, 2.0}, A{1.0}, A{-1.0, 0.0}, A{0.0, 0.0}, A{}}[rr.Intn(5)]
 						m["lim"] = float64(rr.Range(0, 3))
 						m["n"] = float64(rr.Range(-2, 3))
+						m["word"] = rr.Pick("", "a", "ab")
 					}
 					if !g.tags["stacked:1"] && !g.tags["stacked:2"] && !g.tags["stacked:3"] {
 						// make sure every case has a predicate
